@@ -498,6 +498,21 @@ def g_c12_reflection(repo):
         d.close()
     return out
 
+
+def g_http_verbs(th):
+    """axiom_http_verbs (contracts/proto__http.vspec): scanning each of the nine methods from BASE_STATE reaches a match
+    row exactly at the last byte, and that row reports exactly the id 0 (HttpField::Verb)."""
+    w = 1 << th['row_shift']; c2s = th['char_to_symbol']; ml = th['match_limit']
+    bad = []
+    for v in (b'GET', b'PUT', b'POST', b'HEAD', b'DELETE', b'CONNECT', b'OPTIONS', b'TRACE', b'PATCH'):
+        r = 0; ok = True
+        for k, b in enumerate(v):
+            r = th['transitions'][r * w + c2s[b]]
+            if k < len(v) - 1 and r >= ml: ok = False
+        m = th['matches'][r]
+        if not (ok and r >= ml and m['ids'][:m['count']] == [0]): bad.append(v.decode())
+    return not bad, {'obligation': 'ground/http-verbs', 'methods_not_matched_as_stated': bad}
+
 # ----------------------------------------------------------------------------- per-property driver
 def run(pid, tier, repo, build, seed):
     res = {'obligations': 0, 'discharged': 0, 'violations': [], 'undecided': [], 'details': []}
@@ -538,6 +553,9 @@ def run(pid, tier, repo, build, seed):
             okh = bool(hids) and min(hids) >= 0 and max(hids) <= 4 and th['match_limit'] > 1 and all(m['count'] <= 1 for m in th['matches'][:th['state_count']])
             add(okh, {'obligation': 'ground/http-table-facts', 'ids': hids, 'match_limit': th['match_limit']}, 'ground/http-table-facts',
                 'axiom_http_table: ids of HTTP_SMACK within 0..4, one id per match row, BASE and UNANCHORED are resting states')
+            if pid in ('C13', 'C01'):
+                ok_, info_ = g_http_verbs(th)
+                add(ok_, info_, 'ground/http-verbs', 'axiom_http_verbs: each of the nine methods is reported (id 0) exactly at its last byte: %s' % info_)
             if pid in ('C11', 'C13', 'C01'):
                 ok_, info_ = g_http_dead_rows(th)
                 add(ok_, info_, 'ground/http-dead-rows', 'axiom_http_dead_rows: no method can be reported from the closure of UNANCHORED_STATE: %s' % info_)
